@@ -120,28 +120,28 @@ def as_raw(rng, ks, ncand):
     return out
 
 
-def final_tables(kind, axis, X, y, init, extra, ks, thr=None, forms=None):
+def final_tables(kind, axis, X, y, init, extra, ks, thr=None, forms=None, pres=None):
     """distance tables / pi_ after a chain, straight from the implementation.
     thr = (type, value): the same score threshold is set at every stage.
     forms = per stage, how the (equal) data is handed over: see in_form."""
     Xa = np.array(X, float)
     Ya = None if y is None else np.array(y, float)
-    kw = dict(extra)
+    kw = {k_: (SS.present(v_, pres) if k_ in ("recompute_every", "k") else v_) for k_, v_ in extra.items()}
     if init is not None:
-        kw["initialize"] = init
+        kw["initialize"] = SS.present(init, pres)
     sel = S.make_selector(kind, axis, **kw)
     rec = c01.Recorder(sel)
     if thr is not None:
         sel.score_threshold_type, sel.score_threshold = thr
     for si, k in enumerate(ks):
-        sel.n_to_select = k
+        sel.n_to_select = SS.present(k, pres)
         form = "same" if not forms else forms[si % len(forms)]
         Xs, Ys = in_form(Xa, form), in_form(Ya, form)
         reseed_global_rng()
         if Ya is None:
-            sel.fit(Xs, warm_start=si > 0)
+            sel.fit(Xs, warm_start=SS.present_flag(si > 0, pres))
         else:
-            sel.fit(Xs, Ys, warm_start=si > 0)
+            sel.fit(Xs, Ys, warm_start=SS.present_flag(si > 0, pres))
     out = dict(sel=[int(i) for i in sel.selected_idx_], X_selected=np.array(sel.X_selected_),
                stream=[np.array(v) for v in rec.calls])
     if hasattr(sel, "y_selected_") and axis == 0:
@@ -261,6 +261,9 @@ def run(ctx):
             stats["stages_with_data_as_other_object"] = stats.get("stages_with_data_as_other_object", 0) + sum(f != "same" for f in forms[1:])
             case = with_stages(data, ks, ctx.rng, thr_some=True)
             case["forms"] = forms
+            pres = ctx.rng.choice(SS.PRES)
+            case["int_pres"] = pres
+            stats["schedules_with_numpy_scalar_parameters"] = stats.get("schedules_with_numpy_scalar_parameters", 0) + (pres != "py")
             stats["thr_unreached"] += any("thr_val" in s for s in case["stages"])
             try:
                 res = c01.run_impl(case)
@@ -277,7 +280,7 @@ def run(ctx):
                 with _w.catch_warnings():
                     _w.simplefilter("ignore")
                     chain = final_tables(data["kind"], data["axis"], data["X"], data["y"], data["init"],
-                                         data["extra"], ks, thr, forms)
+                                         data["extra"], ks, thr, forms, pres)
             except Exception as e:  # noqa
                 viol.append(("chain %s raised %s" % (ks, S.err_class(e)), dict(case=case)))
                 continue
@@ -285,7 +288,7 @@ def run(ctx):
             if msg == "TIE":
                 stats["ties_accepted"] = stats.get("ties_accepted", 0) + 1
             elif msg:
-                viol.append(("history dependence: schedule %s (data handed over as %s), threshold %s: %s" % (ks, forms, thr, msg),
+                viol.append(("history dependence: schedule %s (data handed over as %s, integer parameters as %s), threshold %s: %s" % (ks, forms, pres, thr, msg),
                              dict(case=case, cold_sel=cold["sel"], thr=thr)))
             t = None if data["extra"].get("random_state", 0) != 0 else c01.case_coq(case, res)
             if t is not None:
@@ -390,9 +393,12 @@ def run(ctx):
             sstats["calls"] += 1
             sstats["rejected_calls"] += "error" in r
             sstats["returned_calls"] += "obs" in r
+            sstats["fits_with_negative_initialize"] = sstats.get("fits_with_negative_initialize", 0) + bool(r.get("negative_indices_reported"))
+            sstats["calls_with_numpy_scalar_parameters"] = sstats.get("calls_with_numpy_scalar_parameters", 0) + (e.get("pres", "py") != "py")
             if e["mode"] == "init":
                 sstats["init_failures"] += 1
-                sstats["partial_init_failures"] += e.get("why") in ("list_oor", "list_long")
+                sstats["partial_init_failures"] += e.get("why") in ("list_oor", "list_long", "list_below")
+                sstats["init_failures_below_minus_n"] = sstats.get("init_failures_below_minus_n", 0) + (e.get("why") in ("list_below", "below_int"))
                 fitted_py = 0
             sstats["shrinking_warm_requests"] = sstats.get("shrinking_warm_requests", 0) + (e.get("why") == "shrink")
             sstats["fraction_or_none_requests"] = sstats.get("fraction_or_none_requests", 0) + (not isinstance(e["nts"], int))
@@ -452,7 +458,8 @@ def run(ctx):
         try:
             wforms = [ctx.rng.choice(FORMS) for _ in stages]
             wcase["forms"] = wforms
-            msg, info = SS.switch_compare(data, stages, wforms)
+            wcase["int_pres"] = ctx.rng.choice(SS.PRES)
+            msg, info = SS.switch_compare(data, stages, wforms, wcase["int_pres"])
         except Exception as e:  # noqa
             wstats["errors"] += 1
             C.report_violation(ctx, "C08 fails on the implementation: a chain with set_params(recompute_every) between "
@@ -564,7 +571,7 @@ def replay(ctx, obj):
         return 1 if msg else 0
     if "switch_stages" in case:
         data = {k: case[k] for k in ("kind", "axis", "X", "y", "init", "extra")}
-        msg, info = SS.switch_compare(data, [tuple(s) for s in case["switch_stages"]], case.get("forms"))
+        msg, info = SS.switch_compare(data, [tuple(s) for s in case["switch_stages"]], case.get("forms"), case.get("int_pres"))
         if msg == "TIE":
             msg = None
         print("replay:", msg or "property holds on this input now", info)
@@ -576,7 +583,7 @@ def replay(ctx, obj):
     thr = tuple(obj["thr"]) if obj.get("thr") else None
     cold = final_tables(case["kind"], case["axis"], case["X"], case["y"], case["init"], case["extra"], [ks[-1]], thr)
     chain = final_tables(case["kind"], case["axis"], case["X"], case["y"], case["init"], case["extra"], ks, thr,
-                         case.get("forms"))
+                         case.get("forms"), case.get("int_pres"))
     msg = tables_equal(case["kind"], chain, cold)
     if msg == "TIE":
         msg = None
